@@ -268,8 +268,11 @@ class Field:
 class Variant:
     """a struct body or an enum variant. kind: unit | tuple | named"""
 
-    def __init__(self, name, fields=(), kind=None, attr=None, rename_all=None):
+    def __init__(self, name, fields=(), kind=None, attr=None, rename_all=None, extra=()):
         self.name = name
+        # extra: further `#[<attr>(..)]` attributes of the item, [("first" | "last", inner text)]: written before / after the
+        # rename_all and format attributes (e.g. ("last", "bound(Probe: Clone)"))
+        self.extra = list(extra)
         # a field is given as Field, as a name (named probe field) or as None (positional probe field)
         self.fields = [f if isinstance(f, Field) else Field(f) for f in fields]
         self.kind = kind or ("unit" if not self.fields else "named" if self.fields[0].name else "tuple")
@@ -314,8 +317,9 @@ class Variant:
 class TypeDef:
     """struct (variants == [the body], is_enum False) or enum"""
 
-    def __init__(self, derive, variants, is_enum=False, shared=None, rename_all=None, name="T"):
+    def __init__(self, derive, variants, is_enum=False, shared=None, rename_all=None, name="T", extra=()):
         self.derive = derive                    # trait name
+        self.extra = list(extra)                # see Variant.extra (container level)
         self.variants = variants if isinstance(variants, list) else [variants]
         self.is_enum = is_enum
         self.shared = shared                    # container-level Attr of an enum
@@ -324,27 +328,28 @@ class TypeDef:
         if not is_enum:
             self.variants[0].name = self.variants[0].name or name
 
-    def attr_lines(self, attr, rename_all, indent=""):
+    def attr_lines(self, attr, rename_all, indent="", extra=()):
         a = ATTR[self.derive]
-        out = []
+        out = ["%s#[%s(%s)]" % (indent, a, inner) for pos, inner in extra if pos == "first"]
         if rename_all:
             out.append('%s#[%s(rename_all = "%s")]' % (indent, a, rename_all))
         if attr:
             out.append("%s#[%s(%s)]" % (indent, a, attr.inner()))
+        out += ["%s#[%s(%s)]" % (indent, a, inner) for pos, inner in extra if pos == "last"]
         return out
 
     def decl(self):
         lines = ["#[derive(derive_more::%s)]" % self.derive]
         if self.is_enum:
-            lines += self.attr_lines(self.shared, self.rename_all)
+            lines += self.attr_lines(self.shared, self.rename_all, extra=self.extra)
             lines.append("pub enum %s {" % self.name)
             for v in self.variants:
-                lines += self.attr_lines(v.attr, v.rename_all, "    ")
+                lines += self.attr_lines(v.attr, v.rename_all, "    ", extra=v.extra)
                 lines.append("    %s%s," % (v.name, v.body()))
             lines.append("}")
         else:
             v = self.variants[0]
-            lines += self.attr_lines(v.attr, self.rename_all or v.rename_all)
+            lines += self.attr_lines(v.attr, self.rename_all or v.rename_all, extra=self.extra + v.extra)
             lines.append("pub struct %s%s%s" % (self.name, v.body("pub "), "" if v.kind == "named" else ";"))
         return "\n".join(lines)
 
